@@ -1156,20 +1156,25 @@ func prepare(b batch, tasks []task) {
 // exit status of the harness when a phase did not return (the blocked goroutines cannot be cancelled: the process ends)
 const exitDidNotReturn = 77
 
-// perCallSeq: running maximum of the observed sequential time per call; the deadline of a phase is
-// 10 x (calls x perCallSeq), at least 20 s and at most 90 s
+// perCallSeq: running maximum of the observed sequential time per call; the deadline of the concurrent phase is
+// 20 x (calls x perCallSeq), at least 120 s and at most 600 s; the sequential phase (the oracle; it cannot deadlock on
+// another call) gets 600 s.  The floors are deliberately generous: the harness runs under the race detector, possibly
+// with GOMAXPROCS=1 and on a loaded machine, and a slow phase must never be mistaken for a deadlock.
 var perCallSeq = 30 * time.Millisecond
 
 // emit is set by main: what to do with a batch result that has to be written before the process ends
 var emit = func(batchResult) {}
 
-func phaseDeadline(calls int) time.Duration {
-	d := 10 * time.Duration(calls) * perCallSeq
-	if d < 20*time.Second {
-		d = 20 * time.Second
+func phaseDeadline(calls int, phase string) time.Duration {
+	if phase == "sequential" {
+		return 600 * time.Second
 	}
-	if d > 90*time.Second {
-		d = 90 * time.Second
+	d := 20 * time.Duration(calls) * perCallSeq
+	if d < 120*time.Second {
+		d = 120 * time.Second
+	}
+	if d > 600*time.Second {
+		d = 600 * time.Second
 	}
 	return d
 }
@@ -1182,7 +1187,7 @@ func underDeadline(res *batchResult, tasks []task, phase string, calls int, f fu
 		defer close(done)
 		f()
 	}()
-	d := phaseDeadline(calls)
+	d := phaseDeadline(calls, phase)
 	timer := time.NewTimer(d)
 	defer timer.Stop()
 	select {
